@@ -485,7 +485,10 @@ impl Checker {
 async fn run_phase(phase: usize, sqlite: &SqliteStore, acked: &Acked, model: &Rc<RefCell<Model>>, env: &Rc<Env>, scripts: Vec<Vec<OpS>>, file_db: bool, faults: bool, restart_at: Option<u64>, chk: &mut Checker) -> PhaseEnd {
     let n = scripts.len();
     let mut ex = StepExec::new();
-    ex.watchdog = Duration::from_secs(8);
+    ex.watchdog = Duration::from_secs(15);
+    // Every park of this scenario is classified by the model (hint); what remains are waits for
+    // sqlx workers, which under machine load can take long. The fallback is only a watchdog here.
+    ex.fallback = Duration::from_secs(15);
     for (a, ops) in scripts.into_iter().enumerate() {
         let id = ex.add(&format!("act{a}"), Policy::ForeignDefault, activity(a, acked.clone(), model.clone(), env.clone(), ops));
         assert_eq!(id, a);
@@ -494,6 +497,10 @@ async fn run_phase(phase: usize, sqlite: &SqliteStore, acked: &Acked, model: &Rc
     }
     let mut st = vec![St::Ready; n];
     let mut need_wake = vec![false; n];
+    // Suspended inside its critical section: first in line for the store's transaction permit (file
+    // database) or for the only pool connection (in-memory database) until it is polled again, so
+    // the harness itself must not ask for either in the meantime.
+    let mut inside = vec![false; n];
     let mut t_permit = None;
     let mut t_budget = ctx::choose("t.budget", 4);
     let mut cancel_budget = if faults { ctx::choose("cancel.budget", 3) } else { 0 };
@@ -526,6 +533,7 @@ async fn run_phase(phase: usize, sqlite: &SqliteStore, acked: &Acked, model: &Rc
             model.borrow_mut().release(a);
             st[a] = St::Cancelled;
             need_wake[a] = false;
+            inside[a] = false;
             ctx::fault("cancel_at");
             match was {
                 St::Queued => ctx::probe("cancel_while_parked_on_acked_semaphore"),
@@ -564,7 +572,7 @@ async fn run_phase(phase: usize, sqlite: &SqliteStore, acked: &Acked, model: &Rc
             }
             what = format!("other component's store transaction ended ({})", ["commit", "rollback", "permit dropped"][how]);
             ev!("{what}");
-        } else if t_permit.is_none() && t_budget > 0 && ctx::chance("t.begin", 1, 3) {
+        } else if t_permit.is_none() && t_budget > 0 && !inside.iter().any(|x| *x) && ctx::chance("t.begin", 1, 3) {
             t_budget -= 1;
             match sqlite.begin().await {
                 Ok(p) => t_permit = Some(p),
@@ -595,6 +603,7 @@ async fn run_phase(phase: usize, sqlite: &SqliteStore, acked: &Acked, model: &Rc
                 }
                 need_wake[a] = false;
             }
+            inside[a] = false;
             match ex.run_activity(a).await {
                 Ok(Step::Ran { finished: true, .. }) => st[a] = St::Done,
                 Ok(Step::Ran { finished: false, .. }) => {
@@ -606,6 +615,7 @@ async fn run_phase(phase: usize, sqlite: &SqliteStore, acked: &Acked, model: &Rc
                     } else if m.holder == Some(a) {
                         if m.t_holding {
                             st[a] = St::HolderBlocked;
+                            inside[a] = true;
                             ctx::probe("ack_suspended_inside_critical_section");
                             ev!("act{a} holds the Acked semaphore in {} and is suspended behind the open store transaction", m.cur_op.get(&a).map(|o| o.label()).unwrap_or_default());
                         } else {
@@ -637,7 +647,7 @@ async fn run_phase(phase: usize, sqlite: &SqliteStore, acked: &Acked, model: &Rc
             }
         }
         // Look at the persisted cursor (not possible while the only connection is taken).
-        if file_db || t_permit.is_none() {
+        if file_db || (t_permit.is_none() && !inside.iter().any(|x| *x)) {
             if !chk.look(sqlite, acked, model, env, &what).await {
                 break PhaseEnd::Abort;
             }
@@ -691,7 +701,7 @@ impl Property for C07Prop {
     }
     fn budget(&self, tier: Tier) -> Budget {
         match tier {
-            Tier::Quick => Budget { runs: 8_000, wall_cap_s: 40 },
+            Tier::Quick => Budget { runs: 8_000, wall_cap_s: 35 },
             Tier::Thorough => Budget { runs: 100_000, wall_cap_s: 360 },
         }
     }
